@@ -2179,6 +2179,282 @@ theorem rebuild_unrooted_small (sup col : Bool) (t : T) (all : Nat) (members ss 
   exact Bridge.small_iso _ _ (sup_good _ hg) (Bridge.starOf_good members hm) (sup_noUnif _ hg ht0) (Bridge.starOf_noUnif members hne)
     (by rw [hmt, Bridge.starOf_mask, hstar]) (by rw [hmt]; exact h3)
 
+end DendroModel.C01
+
+namespace DendroModel.C01.Aux
+open DendroModel DendroModel.Hier DendroModel.C01
+
+theorem toHL_append : ∀ a b : List T, T.toHL (a ++ b) = T.toHL a ++ T.toHL b
+  | [], b => rfl
+  | c :: cs, b => by simp [T.toHL, toHL_append cs b]
+
+theorem toH_of_cs (t : T) (h : 1 ≤ t.cs.length) : T.toH t = .node (T.toHL t.cs) := by
+  cases t with
+  | node i x l s cs =>
+    cases cs with
+    | nil => simp [T.cs] at h
+    | cons c cs => simp [T.toH, T.cs]
+
+/-- `collapse_basal_bifurcation` keeps the mask-labelled view well formed -/
+theorem collapse_good (t : T) (hg : Good (T.toH t)) : Good (T.toH t.collapseBasal) := by
+  cases t with
+  | node i x l s cs =>
+    match cs, hg with
+    | [], hg => simpa [T.collapseBasal] using hg
+    | [a], hg => simpa [T.collapseBasal] using hg
+    | a :: b :: c :: r, hg => simpa [T.collapseBasal] using hg
+    | [a, b], hg =>
+      simp only [T.toH, T.toHL, Good, GoodL, Hier.maskL, Nat.or_zero] at hg
+      obtain ⟨ga, a0, dab, gb, b0, _, _⟩ := hg
+      simp only [T.collapseBasal]
+      by_cases hb : b.cs.length ≥ 2
+      · rw [if_pos hb]
+        have eb := toH_of_cs b (by omega)
+        rw [eb] at gb dab
+        simp only [Good] at gb
+        simp only [Hier.mask] at dab
+        cases hbc : b.cs with
+        | nil => rw [hbc] at hb; simp at hb
+        | cons d ds =>
+          rw [hbc] at gb dab
+          simp only [T.toH, T.toHL, withLen_toH, Good, GoodL]
+          exact ⟨ga, a0, dab, gb⟩
+      · rw [if_neg hb]
+        by_cases ha : a.cs.length ≥ 2
+        · rw [if_pos ha]
+          have ea := toH_of_cs a (by omega)
+          rw [ea] at ga dab a0
+          simp only [Good] at ga
+          simp only [Hier.mask] at dab a0
+          cases hac : a.cs with
+          | nil => rw [hac] at ha; simp at ha
+          | cons d ds =>
+            rw [hac] at ga dab
+            have : T.toH (.node i x l s ((d :: ds) ++ [b.withLen (tryAdd b.len a.len)])) =
+                .node (T.toHL (d :: ds) ++ [T.toH b]) := by
+              simp [T.toH, toHL_append, T.toHL, withLen_toH]
+            rw [this]
+            simp only [Good]
+            rw [Bridge.goodL_append_iff]
+            refine ⟨ga, ?_, ?_⟩
+            · simp only [GoodL, Hier.maskL, Nat.and_zero, and_true]; exact ⟨gb, b0⟩
+            · simpa [Hier.maskL] using dab
+        · rw [if_neg ha]
+          simp only [T.toH, T.toHL, Good, GoodL, Hier.maskL, Nat.or_zero, Nat.and_zero, and_true]
+          exact ⟨ga, a0, dab, gb, b0⟩
+
+theorem encodeTree_good (r : Option Bool) (s c : Bool) (t : T) (hg : Good (T.toH t)) : Good (T.toH (encodeTree r s c t)) := by
+  unfold encodeTree
+  have h1 : Good (T.toH (if (c && r != some true && t.cs.length == 2) = true then t.collapseBasal else t)) := by
+    split
+    · exact collapse_good t hg
+    · exact hg
+  cases s
+  · simpa using h1
+  · simp only [if_true]; rw [sup_toH]; exact sup_good _ h1
+
+/-- `treeCompatible` looks at the stored pairs only through the SET of their split masks -/
+theorem treeCompatible_congr (e1 e2 : List (Nat × Int)) (L : Nat) (s : Int)
+    (h : ∀ z, z ∈ e1.map (·.2) ↔ z ∈ e2.map (·.2)) : treeCompatible e1 L s = treeCompatible e2 L s := by
+  have hany : ∀ (a b : List (Nat × Int)), (∀ z, z ∈ a.map (·.2) → z ∈ b.map (·.2)) →
+      a.any (fun p => p.2 == s) = true → b.any (fun p => p.2 == s) = true := by
+    intro a b hab ha
+    rw [List.any_eq_true] at ha ⊢
+    obtain ⟨p, hp, hps⟩ := ha
+    obtain ⟨q, hq, e⟩ := List.mem_map.mp (hab p.2 (List.mem_map.mpr ⟨p, hp, rfl⟩))
+    exact ⟨q, hq, by rw [e]; exact hps⟩
+  have hall : ∀ (a b : List (Nat × Int)), (∀ z, z ∈ b.map (·.2) → z ∈ a.map (·.2)) →
+      a.all (fun p => isCompatible p.2 s (L : Int)) = true → b.all (fun p => isCompatible p.2 s (L : Int)) = true := by
+    intro a b hba ha
+    rw [List.all_eq_true] at ha ⊢
+    intro q hq
+    obtain ⟨p, hp, e⟩ := List.mem_map.mp (hba q.2 (List.mem_map.mpr ⟨q, hq, rfl⟩))
+    have := ha p hp
+    rw [e] at this; exact this
+  unfold treeCompatible
+  have e_any : e1.any (fun p => p.2 == s) = e2.any (fun p => p.2 == s) := by
+    apply Bool.eq_iff_iff.mpr
+    exact ⟨hany e1 e2 (fun z hz => (h z).mp hz), hany e2 e1 (fun z hz => (h z).mpr hz)⟩
+  have e_all : e1.all (fun p => isCompatible p.2 s (L : Int)) = e2.all (fun p => isCompatible p.2 s (L : Int)) := by
+    apply Bool.eq_iff_iff.mpr
+    exact ⟨hall e1 e2 (fun z hz => (h z).mpr hz), hall e2 e1 (fun z hz => (h z).mp hz)⟩
+  rw [e_any, e_all]
+
+theorem encode_ne_nil (r : Option Bool) (s c : Bool) (t : T) : encode r s c t ≠ [] := by
+  intro h
+  have hm := Bridge.mask_mem_masksPost (encodeTree r s c t)
+  have : (encode r s c t).map (·.1) = (encodeTree r s c t).masksPost := by
+    simp [encode, List.map_map, Function.comp_def]
+  rw [h] at this
+  rw [← this] at hm; cases hm
+
+end DendroModel.C01.Aux
+
+namespace DendroModel.C01
+open DendroModel DendroModel.Hier DendroModel.C01.Aux
+
+/-! ### wave 2: encoding twice, updated query after an encoding -/
+
+/-- **encoding twice changes no split**: the SET of split masks of a second encoding (any flags) of the tree a first encoding
+    (any flags) leaves behind is the set of the first — although the tree itself may change again (a basal bifurcation that
+    only appears once unifurcations are suppressed is collapsed by the second call) -/
+theorem encode_twice_same_splits (r : Option Bool) (s c s' c' : Bool) (t : T) (hg : Good (T.toH t)) (h0 : t.mask ≠ 0) (z : Int) :
+    z ∈ (encode r s' c' (encodeTree r s c t)).map (·.2) ↔ z ∈ (encode r s c t).map (·.2) := by
+  have hg' : Good (T.toH (encodeTree r s c t)) := encodeTree_good r s c t hg
+  have hU : ∀ (s c s' c' : Bool) (t : T), Good (T.toH t) → t.mask ≠ 0 → Good (T.toH (encodeTree (some false) s c t)) → ∀ z : Int,
+      z ∈ (encode (some false) s' c' (encodeTree (some false) s c t)).map (·.2) ↔ z ∈ (encode (some false) s c t).map (·.2) := by
+    intro s c s' c' t hg h0 hg' z
+    have hm : (encodeTree (some false) s c t).mask = t.mask := encodeTree_mask _ s c t
+    rw [mem_encode_unrooted s' c' _ hg' (by rw [hm]; exact h0), mem_encode_unrooted s c t hg h0, hm]
+    obtain ⟨h1, h2, h3⟩ := lsb_ok t.mask h0
+    constructor
+    · rintro ⟨m, hmm, rfl⟩
+      obtain ⟨m', hm', e⟩ := (encodeTree_norm_image s c t hg _ h1 h2 h3 _).mp ⟨m, hmm, rfl⟩
+      exact ⟨m', hm', by rw [e]⟩
+    · rintro ⟨m, hmm, rfl⟩
+      obtain ⟨m', hm', e⟩ := (encodeTree_norm_image s c t hg _ h1 h2 h3 _).mpr ⟨m, hmm, rfl⟩
+      exact ⟨m', hm', by rw [e]⟩
+  match r with
+  | some true =>
+    rw [mem_encode_rooted, mem_encode_rooted]
+    have e : encodeTree (some true) s c t = if s then t.sup else t := by simp [encodeTree]
+    rw [e]
+    cases s
+    · simp
+    · simp only [if_true]
+      constructor
+      · rintro ⟨x, rfl, hx⟩; exact ⟨x, rfl, ((suppress_keeps_masks t).2.2 x).mp hx⟩
+      · rintro ⟨x, rfl, hx⟩; exact ⟨x, rfl, ((suppress_keeps_masks t).2.2 x).mpr hx⟩
+  | some false => exact hU s c s' c' t hg h0 hg' z
+  | none => exact hU s c s' c' t hg h0 hg' z
+
+/-- **an updated query right after an encoding is a fresh one** (closes the oracle-only gap): encode with any flags, then ask with
+    `is_bipartitions_updated=True` — the answer is the one a default (re-encoding) query gives in the same state; `o` is any state,
+    in particular one reached by any history -/
+theorem history_updated_query_after_encode_is_fresh (o : TreeObj) (sup col : Bool) (s : Int)
+    (hg : Good (T.toH o.tree)) (h0 : o.tree.mask ≠ 0) :
+    (hstep (hstep o (.encode sup col)).1 (.query true s)).2 = (hstep (hstep o (.encode sup col)).1 (.query false s)).2 := by
+  have hst : (hstep o (.encode sup col)).1.stored = some (encode o.rooted sup col o.tree, (encodeTree o.rooted sup col o.tree).mask) := by
+    simp [hstep, doEncode]
+  have htr : (hstep o (.encode sup col)).1.tree = encodeTree o.rooted sup col o.tree := by simp [hstep, doEncode]
+  have hro : (hstep o (.encode sup col)).1.rooted = o.rooted := by simp [hstep, doEncode]
+  rw [history_updated_query_uses_stored _ _ _ s hst (encode_ne_nil _ _ _ _)]
+  have hf := history_default_query_is_fresh (hstep o (.encode sup col)).1 [] s
+  simp only [hrun] at hf
+  rw [hf, htr, hro]
+  simp only [Option.some.injEq]
+  rw [encodeTree_mask, encodeTree_mask, encodeTree_mask]
+  exact (treeCompatible_congr _ _ _ s (fun z => encode_twice_same_splits o.rooted sup col true true o.tree hg h0 z)).symm
+
+
+end DendroModel.C01
+
+namespace DendroModel.C01.Aux
+open DendroModel DendroModel.Hier DendroModel.C01
+
+def proj (r : Nat × Bool × Nat) : Nat × Nat := (r.1, r.2.2)
+
+theorem recsPost_withLen (t : T) (l : Option Frac) : recsPost (t.withLen l) = recsPost t := by
+  cases t with
+  | node i x l' s cs => cases cs <;> simp [T.withLen, recsPost, T.mask]
+
+theorem recsPostL_append (a b : List T) : recsPostL (a ++ b) = recsPostL a ++ recsPostL b := by
+  induction a with
+  | nil => simp [recsPostL]
+  | cons c cs ih => simp [recsPostL, ih]
+
+mutual
+/-- dropping the records of the unary nodes from a tree's post-order records gives the records of the suppressed tree
+    (ids and masks; the surviving nodes keep their id, their mask and their relative order) -/
+theorem recs_sup : ∀ t : T, ((recsPost t).filter (fun r => !r.2.1)).map proj = (recsPost t.sup).map proj
+  | .node i x l s [] => by simp [recsPost, recsPostL, T.sup, T.supL, proj]
+  | .node i x l s [c] => by
+    have ih := recs_sup c
+    simp only [recsPost, recsPostL, List.append_nil, List.filter_append, List.map_append, T.sup, T.supL, recsPost_withLen]
+    simp [ih]
+  | .node i x l s (c :: d :: r) => by
+    have ih := recsL_sup (c :: d :: r)
+    have hm : T.mask (T.sup (.node i x l s (c :: d :: r))) = T.mask (.node i x l s (c :: d :: r)) := tsup_mask _
+    simp only [T.sup, T.supL] at hm
+    simp only [recsPost, List.filter_append, List.map_append, T.sup, T.supL]
+    simp only [T.supL] at ih
+    rw [ih]
+    simp [proj, hm]
+theorem recsL_sup : ∀ cs : List T, ((recsPostL cs).filter (fun r => !r.2.1)).map proj = (recsPostL (T.supL cs)).map proj
+  | [] => by simp [recsPostL, T.supL]
+  | c :: cs => by
+    simp only [recsPostL, T.supL, List.filter_append, List.map_append, recs_sup c, recsL_sup cs]
+end
+
+end DendroModel.C01.Aux
+
+namespace DendroModel.C01
+open DendroModel DendroModel.Hier DendroModel.C01.Aux
+
+/-! ### wave 2: a maintained encoding, the edge map -/
+
+/-- **maintained encoding**: encode without suppression (any collapse flag, any rooting state), then
+    `suppress_unifurcations(update_bipartitions=True)`: when the edge ids are distinct, what `suppressMaint` leaves in the stored
+    list is exactly the id-tagged encoding of the edited tree — same edges (identity), same leafsets and splits, same order,
+    nothing left over of a removed edge and nothing lost (in particular not the edge BELOW a removed one, which has the same
+    split: pruning by split mask instead of by identity would drop it).  No well-formedness hypothesis: taxon-less leaves included. -/
+theorem suppress_maintained (r : Option Bool) (c : Bool) (t : T)
+    (hid : ((recsPost (encodeTree r false c t)).map (fun x => x.1)).Nodup) :
+    suppressMaint (encodeTree r false c t) (encodeIds r false c t) =
+      ((encodeTree r false c t).sup, encodeIds r false false (encodeTree r false c t).sup) := by
+  set t1 := encodeTree r false c t with ht1
+  have e2 : encodeTree r false false t1.sup = t1.sup := by simp [encodeTree]
+  have e1 : encodeTree r false c t = t1 := rfl
+  unfold suppressMaint encodeIds
+  rw [e2]
+  simp only [e1, Prod.mk.injEq, true_and]
+  rw [tsup_mask, List.filter_map]
+  have hfilt : (recsPost t1).filter ((fun e : Nat × Nat × Int =>
+        !(List.map (fun q => q.1) (List.filter (fun q => q.2.1) (recsPost t1))).contains e.1) ∘
+        (fun q : Nat × Bool × Nat => (q.1, q.2.2, splitOf (r == some true) t1.mask q.2.2)))
+      = (recsPost t1).filter (fun q => !q.2.1) := by
+    apply List.filter_congr
+    intro x hx
+    simp only [Function.comp]
+    congr 1
+    apply Bool.eq_iff_iff.mpr
+    simp only [List.contains_iff_mem, List.mem_map, List.mem_filter]
+    constructor
+    · rintro ⟨y, ⟨hy, hyu⟩, hyx⟩
+      have : y = x := List.inj_on_of_nodup_map hid hy hx hyx
+      rw [← this]; exact hyu
+    · intro hxu; exact ⟨x, ⟨hx, hxu⟩, rfl⟩
+  rw [hfilt]
+  have hcore := recs_sup t1
+  have hg : ∀ l : List (Nat × Bool × Nat),
+      l.map (fun q => (q.1, q.2.2, splitOf (r == some true) t1.mask q.2.2)) =
+        (l.map proj).map (fun p => (p.1, p.2, splitOf (r == some true) t1.mask p.2)) := by
+    intro l; simp [List.map_map, Function.comp_def, proj]
+  rw [hg, hg, hcore]
+
+/-- reading `split_bitmask_edge_map` after the maintenance: every stored edge's split is a key, and a key's edge carries that
+    split (the last one in post-order when two edges share it) -/
+theorem edgeMap_keys (enc : List (Nat × Nat × Int)) (z : Int) :
+    (∃ p ∈ edgeMap enc, p.1 = z) ↔ ∃ e ∈ enc, e.2.2 = z := by
+  unfold edgeMap
+  induction enc using List.reverseRecOn with
+  | nil => simp
+  | append_singleton l e ih =>
+    rw [List.foldl_append]
+    simp only [List.foldl_cons, List.foldl_nil, List.mem_append, List.mem_singleton, List.mem_filter]
+    constructor
+    · rintro ⟨p, (⟨hp, _⟩ | rfl), hz⟩
+      · obtain ⟨e', he', h'⟩ := ih.mp ⟨p, hp, hz⟩
+        exact ⟨e', Or.inl he', h'⟩
+      · exact ⟨e, Or.inr rfl, hz⟩
+    · rintro ⟨e', (he' | rfl), hz⟩
+      · by_cases hze : z = e.2.2
+        · exact ⟨(e.2.2, e.1), Or.inr rfl, hze.symm⟩
+        · obtain ⟨p, hp, hpz⟩ := ih.mpr ⟨e', he', hz⟩
+          exact ⟨p, Or.inl ⟨hp, by simpa [hpz] using hze⟩, hpz⟩
+      · exact ⟨(e'.2.2, e'.1), Or.inr rfl, hz⟩
+
+
 /-! non-vacuity: the hypotheses are met by concrete trees -/
 example : Good (T.toH (.node 0 none none none [.node 1 (some 0) none none [], .node 2 none none none
     [.node 3 (some 2) none none [], .node 4 (some 3) none none []]])) := by
@@ -2286,6 +2562,20 @@ example : C01Kernels.head_filter false 13 15 = some 2 ∧ C01Kernels.head_filter
 example : (hrun { tree := exQ1, rooted := some true, stored := none }
     [.query false 3, .edit exQ2, .query true 3, .query false 3]).2 = [some true, none, some true, some false] := by decide
 example : (hrun { tree := exQ1, rooted := some true, stored := none } [.query false 3]).1.rooted = some true := by decide
+-- suppress_maintained: ((t0),t1,t2), ids 0..4: edge 1 (the unifurcation) and edge 2 (t0) share leafset/split 1; the maintenance
+-- removes edge 1 BY IDENTITY and keeps edge 2; the edge map then sends split 1 to edge 2
+example : encodeIds (some true) false true (.node 0 none none none [.node 1 none none none [.node 2 (some 0) none none []],
+    .node 3 (some 1) none none [], .node 4 (some 2) none none []]) = [(2, 1, 1), (1, 1, 1), (3, 2, 2), (4, 4, 4), (0, 7, 7)] := by decide
+example : (suppressMaint (.node 0 none none none [.node 1 none none none [.node 2 (some 0) none none []],
+    .node 3 (some 1) none none [], .node 4 (some 2) none none []]) [(2, 1, 1), (1, 1, 1), (3, 2, 2), (4, 4, 4), (0, 7, 7)]).2
+    = [(2, 1, 1), (3, 2, 2), (4, 4, 4), (0, 7, 7)] := by decide
+example : edgeMap [(2, 1, 1), (1, 1, 1), (3, 2, 2)] = [(1, 1), (2, 3)] ∧ edgeMap [(2, 1, 1), (3, 2, 2)] = [(1, 2), (2, 3)] := by decide
+-- wave 2.  encode_twice_same_splits: (t0,((t2,t3))) unrooted: the first encoding (collapse sees a unifurcation, then suppresses it)
+-- leaves the basal bifurcation (t0,(t2,t3)); the second collapses it - the tree changes, the split set {12,4,8,0} does not
+example : (encodeTree (some false) true true (.node 0 none none none [.node 1 (some 0) none none [], .node 2 none none none
+    [.node 3 none none none [.node 4 (some 2) none none [], .node 5 (some 3) none none []]]])).cs.length = 2 := by decide
+example : (hrun { tree := exQ1, rooted := some false, stored := none } [.encode false true, .query true 12, .query false 12]).2
+    = [none, some true, some true] := by decide
 -- rebuild_unrooted_small: the cherry (t1,t5) over members 1,5 (and with an extra member 3): the star
 example : (encode (some false) true true (.node 0 none none none [.node 1 (some 1) none none [], .node 2 (some 5) none none []])).map (·.2)
     = [32, 32, 0] := by decide
